@@ -264,6 +264,24 @@ def run_natural_case(args):
                 res["violations"].append(dict(signature=f"natural:failed-dml-changed-table:{label}", what=f"`{q.replace(d, '')[:100]}` ({where}) {'failed' if not r['ok'] else 'returned Ok'} and {target} changed: {len(before.get('rows', []))} -> {len(now.get('rows', []))} rows"))
         if len(res["samples"]) < 1:
             res["samples"].append(dict(q=q.replace(d, "")[:100], natural_fault=label, row=k, of=n, engine=engine, outcome="error" if not r["ok"] else "ok"))
+        # a sink that fails: COPY TO a device that rejects every write (ENOSPC). Whether the output is smaller than the writer's
+        # buffer (the only write is the final flush) or much larger, the statement must fail. (A stream of its own.)
+        import stat
+        if os.path.exists("/dev/full") and stat.S_ISCHR(os.stat("/dev/full").st_mode) and not r.get("dead"):
+            rng2 = random.Random(f"c15-nat2-{seed}-{idx}")
+            src = rng2.choice(["small", "sink", "nf", "(select k from small where k > 5)", "(select id, a from nf where id < 3)", "cp"])
+            q2 = f"copy {src} to '/dev/full'" + rng2.choice(["", " (FORMAT CSV)", " (FORMAT CSV, DELIMITER '|')"])
+            r2 = rl.sql(q2, timeout=120)
+            lab2 = "copy_to:full-device:" + ("large-output" if src == "nf" else "output-below-the-writer-buffer")
+            res["cases"] += 1
+            res["kinds"].add(lab2)
+            res["distinct"].append(h([q2, n, engine, mt]))
+            if r2.get("dead"):
+                res["violations"].append(dict(signature=f"natural:process-dies:{lab2}", what=f"`{q2}` killed the process: {r2['err'][:80]}"))
+            elif r2["ok"]:
+                res["violations"].append(dict(signature=f"natural:ok-despite-failing-sink:{lab2}", what=f"`{q2}` ({engine}{' mt' if mt else ''}) returned Ok {str(r2['rows'][:2])[:60]} although every write to the device fails"))
+            else:
+                res["failed"] += 1
     except Exception as e:
         res["inconclusive"] = f"harness: {type(e).__name__}: {e}"
     finally:
